@@ -82,6 +82,7 @@ Ltac decide_cmp :=
             |replace (a =? b) with false by (symmetry; apply N.eqb_neq; lia)]
   end.
 
+Local Strategy 1000 [encode enc_run lz_run z_start kl_start syms_len].
 Lemma l2_chunk_kl s m pbyte syms p rest :
   kl_ok s m pbyte syms p ->
   l2in s = kl_bytes s m pbyte syms p ++ rest ->
